@@ -5,7 +5,6 @@ import (
 	"errors"
 	"hash/maphash"
 	"io"
-	"math"
 	"math/big"
 	"reflect"
 	"slices"
@@ -373,7 +372,8 @@ func (s unicodeString) utf16Runes() []rune {
 }
 
 func (s unicodeString) ToInteger() int64 {
-	return 0
+	// (the string may be a numeral surrounded by non-ASCII white space)
+	return asciiString(s.toTrimmedUTF8()).ToInteger()
 }
 
 func (s unicodeString) toString() String {
@@ -385,7 +385,7 @@ func (s unicodeString) ToString() Value {
 }
 
 func (s unicodeString) ToFloat() float64 {
-	return math.NaN()
+	return asciiString(s.toTrimmedUTF8()).ToFloat()
 }
 
 func (s unicodeString) ToBoolean() bool {
